@@ -69,6 +69,12 @@ pub fn run_c18(cx: &mut Cx) {
             if co.N == pk.N { cx.violation("C18", "commitment-key-own/modulus-equals-issuer".into(), String::new()); }
             if co.N.significant_bits() < 1025 || co.N.significant_bits() > 1026 { cx.violation("C18", "commitment-key-own/modulus-bit-length".into(), format!("{} bits", co.N.significant_bits())); }
             if co.N.is_probably_prime(30) != IsPrime::No || co.N.is_perfect_square() { cx.violation("C18", "commitment-key-own/modulus-shape".into(), String::new()); }
+            // a product of two 513-bit safe primes has no small prime factor (the factors themselves are
+            // discarded by the library, so this is the strongest check available)
+            if let Some(f) = small_factor(&co.N, 1 << 20) { cx.violation("C18", "commitment-key-own/modulus-has-small-factor".into(), format!("N is divisible by {f}: not a product of two safe primes")); }
+            // N = (2p'+1)(2q'+1) with odd primes p', q' implies N = 1 mod 4 is impossible to test alone,
+            // but N mod 4 must be 1 (both factors are 3 mod 4)
+            if co.N.mod_u(4) != 1 { cx.violation("C18", "commitment-key-own/modulus-not-1-mod-4".into(), String::new()); }
             check_element(cx, "h(own)", &co.h, &co.N, None);
             for g in &co.g_bases { check_element(cx, "g_i(own)", g, &co.N, None); }
         }
@@ -131,4 +137,20 @@ pub fn run_c18(cx: &mut Cx) {
         }
     });
     cx.run();
+}
+
+/// smallest prime factor below `bound`, by trial division over a sieve
+fn small_factor(n: &Integer, bound: u32) -> Option<u32> {
+    let b = bound as usize;
+    let mut sieve = vec![true; b];
+    let mut p = 2usize;
+    while p < b {
+        if sieve[p] {
+            if n.is_divisible_u(p as u32) { return Some(p as u32); }
+            let mut k = p * p;
+            while k < b { sieve[k] = false; k += p; }
+        }
+        p += 1;
+    }
+    None
 }
